@@ -8,6 +8,7 @@ import (
 	"regexp"
 	"sort"
 	"strings"
+	"text/template/parse"
 
 	"golang.org/x/tools/go/ssa"
 )
@@ -20,7 +21,7 @@ func init() {
 		title: "Type 1 writer emits conforming files that say what the font says",
 		explanation: "Decides the framing, cipher and template-structure clauses of C08: the PFB branch writes header {128, type, LE32(n)} / data three times with types 1, 2, 1 and the end marker {128, 3}, each length taken from the filled buffer before it is reset and spread little-endian over four bytes; " +
 			"the eexec stream writer and the charstring obfuscator use keys 55665 / 4330 and multipliers 52845 / 22719 with ciphertext feedback (the writer is evaluated through Write + Close with a symbolic state and byte and with a concrete sequence across a full buffer, the obfuscator on symbolic and concrete bytes; outputs and state compared with the specification as normal forms over Z/2^16 or for all values), four lead bytes; the first eexec ciphertext byte, evaluated as a constant, is neither white space nor a hexadecimal digit; the charstring lead-byte search only accepts a first byte above 32 and a non-hexadecimal byte among the first four (sets evaluated for all bytes); no /lenIV is written, so the default of four applies; " +
-			"template: required keys (/FontInfo /FontName /Encoding /PaintType /FontType 1 /FontMatrix /FontBBox /Private /CharStrings) present; RD, ND, NP defined with the standard bodies before their first use; every binary string is preceded by `<len of the same value> RD `; `currentfile eexec` ends the clear text exactly when encrypting; the encrypted part ends with `mark currentfile closefile` and the trailer is 8×64 zeros and cleartomark under the same condition; the explicit encoding lists every entry except .notdef; " +
+			"template: required keys (/FontInfo /FontName /Encoding /PaintType /FontType 1 /FontMatrix /FontBBox /Private /CharStrings) present; RD, ND, NP defined with the standard bodies before their first use; every binary string is preceded by `<len of the same value> RD `; `currentfile eexec` ends the clear text exactly when encrypting; the encrypted part ends with `mark currentfile closefile` and the trailer is 8×64 zeros and cleartomark under the same condition; the explicit encoding lists every entry except .notdef; every real number is printed by the template in a form that reads back as the same number (the template's own printing, or a printf format / FuncMap function evaluated on numbers needing up to 17 digits); " +
 			"PDF embedding: the first length is read after the clear text and before the cipher lead bytes, the second after the cipher writer was closed, both from the same byte counter. Charstring number and command encodings are C20/C06. " +
 			"It does NOT decide that an independent decoder recovers the same font (that needs a second decoder to run).",
 		trusted:     []string{"text/template/parse (parse only)", "canonical symbolic terms", "byte-domain evaluation"},
@@ -79,7 +80,7 @@ func runC08(c *Ctx) {
 		fn := c.method("type1", "Font", "encodeCharstrings")
 		obfFn := c.fn("type1", "obfuscateCharstring")
 		accepts := func(first string) (bool, string) {
-			ev := &ssaEval{c: c, bind: map[ssa.Value]sv{}, mem: map[string]sv{}}
+			ev := &ssaEval{c: c, bind: map[ssa.Value]sv{}, mem: map[string]sv{}, arrays: true}
 			calls, nexts := 0, 0
 			stored := ""
 			ev.noInline = func(f *ssa.Function) bool { return f.Signature.Recv() != nil }
@@ -161,6 +162,7 @@ func runC08(c *Ctx) {
 	c.pfbFraming(info)
 	c.templateStructure(info)
 	c.templateDataFields()
+	c.numbersExact()
 	c.pdfLengths()
 	c.encodingWriter(info)
 }
@@ -173,7 +175,7 @@ func (c *Ctx) pfbFraming(info *types.Info) {
 	fn := c.method("type1", "Font", "Write")
 	fname := "type1.(*Font).Write"
 	pfb := c.constInt("type1", "FormatPFB")
-	ev := &ssaEval{c: c, bind: map[ssa.Value]sv{}, mem: map[string]sv{}}
+	ev := &ssaEval{c: c, bind: map[ssa.Value]sv{}, mem: map[string]sv{}, arrays: true}
 	var content []string
 	var writes []string
 	cur := func() string { return "<" + strings.Join(content, ",") + ">" }
@@ -292,16 +294,33 @@ func (c *Ctx) templateStructure(info *types.Info) {
 		}
 		c.check(okDef, "W-TEMPLATE", name, op+" defined as "+body+" before its first use", token.NoPos, def, op+" is not defined with the standard body `"+body+"` before it is used in the Private dictionary")
 	}
-	// binary emissions: ⟦len $x⟧ RD ⟦$x⟧
-	bin := regexp.MustCompile(`⟦len (\$\w+)⟧ RD ⟦(\$\w+)⟧`).FindAllStringSubmatch(b, -1)
-	okBin := len(bin) == 2
-	for _, m := range bin {
-		if m[1] != m[2] {
-			okBin = false
+	// binary emissions: a string taken out of a collection (an element that is ranged over, or a
+	// field of such an element) and printed without an escape function is binary data; the action
+	// in front of it must be ` RD ` preceded by `len` of the same value (tmplPrints resolves range
+	// variables and the dot, so `$cs` of a map and `.Code` of a list element are the same thing)
+	prints := c.tmplPrints()
+	nBin, badBin := 0, ""
+	itemsB := t.items("SectionB")
+	for i, it := range itemsB {
+		p, isPrint := prints[it.node]
+		if _, isAct := it.node.(*parse.ActionNode); !isAct || !isPrint || !p.elem || len(p.funcs) != 0 || p.typ == nil {
+			continue
+		}
+		if bt, ok := p.typ.Underlying().(*types.Basic); !ok || bt.Info()&types.IsString == 0 {
+			continue
+		}
+		nBin++
+		ok := i >= 2 && itemsB[i-1].action == "" && itemsB[i-1].text == " RD "
+		if ok {
+			q, isQ := prints[itemsB[i-2].node]
+			_, isAct := itemsB[i-2].node.(*parse.ActionNode)
+			ok = isQ && isAct && len(q.funcs) == 1 && q.funcs[0] == "len" && q.expr == p.expr
+		}
+		if !ok {
+			badBin += " `" + it.action + "`"
 		}
 	}
-	raw := regexp.MustCompile(`⟦\$(cs|subr)⟧`).FindAllString(b, -1)
-	c.check(okBin && len(raw) == 2, "W-TEMPLATE", name, "every binary string is preceded by `<its length> RD `", token.NoPos, fmt.Sprint(bin), "a charstring or subroutine is emitted without the length of the same value and ` RD ` in front of it")
+	c.check(nBin >= 2 && badBin == "", "W-TEMPLATE", name, "every binary string is preceded by `<its length> RD `", token.NoPos, fmt.Sprintf("%d binary emissions", nBin), "a charstring or subroutine is emitted without the length of the same value and ` RD ` in front of it:"+badBin)
 	// no lenIV
 	c.check(!strings.Contains(all, "lenIV"), "W-TEMPLATE", name, "no /lenIV entry (decoders assume four lead bytes)", token.NoPos, "", "the template writes /lenIV; the obfuscator always uses four lead bytes")
 	// eexec switching
